@@ -144,3 +144,82 @@ pub fn probe_notable_setauth() {
 pub fn probe_c11_copyloop() {
     crate::c11::c11_set_host_n4()
 }
+
+fn ui_probe<const CHK: u8, const CAP: usize>() {
+    use crate::oracle::{split_ref};
+    use crate::c11::{is_expected, USERINFO};
+    let t = Text::<3>::any();
+    let b = t.bytes();
+    assume(tables::t_uri_uriref_valid_k(b, 3));
+    let before = split_ref(b);
+    assume(before.authority.is_some());
+    let a = Text::<1>::any();
+    let arg = a.bytes();
+    assume(uri::UserInfo::new(arg).is_ok());
+    let (a0, a1) = before.authority.unwrap();
+    let mut x = unsafe { UriRefBuf::new_unchecked(vec_cap::<CAP>(b)) };
+    let (hp, hl) = {
+        let mut am = x.authority_mut().unwrap();
+        am.set_userinfo(Some(unsafe { uri::UserInfo::new_unchecked(arg) }));
+        let v = am.as_authority().as_bytes();
+        (v.as_ptr(), v.len())
+    };
+    let out = x.as_bytes();
+    if CHK & 1 != 0 {
+        assert!(is_expected(out, b, a0, a1, USERINFO, Some(arg), 5), "exp");
+    }
+    if CHK & 2 != 0 {
+        assert!(tables::t_uri_uriref_valid_k(out, 5), "valid");
+    }
+    if CHK & 4 != 0 {
+        let fresh = x.authority().unwrap().as_bytes();
+        assert!(hp == fresh.as_ptr() && hl == fresh.len(), "handle");
+    }
+    if CHK & 8 != 0 {
+        // handle coherence against the oracle split instead of a second parse
+        let so = split_ref(out).authority.unwrap();
+        assert!(hp == out[so.0..].as_ptr() && hl == so.1 - so.0, "handle2");
+    }
+    if CHK & 16 != 0 {
+        // arithmetic coherence: same start, length moved by the length change
+        assert!(hp == out[a0..].as_ptr() && hl + b.len() == (a1 - a0) + out.len(), "handle3");
+        cover!(true, "end");
+    }
+    std::mem::forget(x);
+}
+#[cfg_attr(kani, kani::proof)]
+#[cfg_attr(kani, kani::unwind(8))]
+#[cfg_attr(kani, kani::stub(std::vec::Vec::resize, crate::stubs::vec_resize))]
+pub fn probe_ui_arith() {
+    ui_probe::<19, 10>()
+}
+#[cfg_attr(kani, kani::proof)]
+#[cfg_attr(kani, kani::unwind(8))]
+#[cfg_attr(kani, kani::stub(std::vec::Vec::resize, crate::stubs::vec_resize))]
+pub fn probe_ui_all_cap5() {
+    ui_probe::<7, 5>()
+}
+#[cfg_attr(kani, kani::proof)]
+#[cfg_attr(kani, kani::unwind(8))]
+#[cfg_attr(kani, kani::stub(std::vec::Vec::resize, crate::stubs::vec_resize))]
+pub fn probe_ui_exp() {
+    ui_probe::<1, 10>()
+}
+#[cfg_attr(kani, kani::proof)]
+#[cfg_attr(kani, kani::unwind(8))]
+#[cfg_attr(kani, kani::stub(std::vec::Vec::resize, crate::stubs::vec_resize))]
+pub fn probe_ui_valid() {
+    ui_probe::<2, 10>()
+}
+#[cfg_attr(kani, kani::proof)]
+#[cfg_attr(kani, kani::unwind(8))]
+#[cfg_attr(kani, kani::stub(std::vec::Vec::resize, crate::stubs::vec_resize))]
+pub fn probe_ui_handle() {
+    ui_probe::<4, 10>()
+}
+#[cfg_attr(kani, kani::proof)]
+#[cfg_attr(kani, kani::unwind(8))]
+#[cfg_attr(kani, kani::stub(std::vec::Vec::resize, crate::stubs::vec_resize))]
+pub fn probe_ui_exp_handle2() {
+    ui_probe::<9, 10>()
+}
